@@ -324,24 +324,45 @@ theorem qam_point_correct_prob (L : Nat) (hL : 2 ≤ L) (s : ℝ) {j i : Nat} (h
   exact prob_correct (sigma_pos s) (by positivity) hj hi
 
 /-- **PSK: the two-nearest-neighbour formula lies between the exact error rate and twice it**, for every
-    `M ≥ 2`, every phase offset, every symbol `k` and every SNR: with `Pe = 1 − P(correct | k)` the exact
-    symbol error probability of the nearest-point detector, `Pe ≤ calcTheoreticalSER ≤ 2·Pe`. -/
-theorem psk_ser_between_exact_and_twice (M : Nat) (hM : 2 ≤ M) (k : Nat) (hk : k < M) (φ s : ℝ) :
-    let Pe := 1 - (noise2 (sigma s)).real
-      (correctNoise (pskNatural (α := ℝ) M φ) (pskNaturalPoint M k φ) k)
+    `M ≥ 2`, every phase offset, every symbol `k`, every SNR and EVERY labelling `c` of the points (any table
+    with the same points in any order — the natural order, the Gray order of the constructor, the order
+    `setPhaseOffset` leaves behind): with `Pe = 1 − P(correct | k)` the exact symbol error probability of the
+    nearest-point detector, `Pe ≤ calcTheoreticalSER ≤ 2·Pe`. -/
+theorem psk_ser_between_exact_and_twice (M : Nat) (hM : 2 ≤ M) (k : Nat) (hk : k < M) (φ s : ℝ)
+    (c : List (ℝ × ℝ)) (hmem : ∀ q, q ∈ c ↔ q ∈ pskNatural (α := ℝ) M φ) (hnd : c.Nodup) (l : Nat)
+    (hl : c[l]? = some (pskNaturalPoint M k φ)) :
+    let Pe := 1 - (noise2 (sigma s)).real (correctNoise c (pskNaturalPoint M k φ) l)
     Pe ≤ pskSER Qg M s ∧ pskSER Qg M s ≤ 2 * Pe := by
   intro Pe
-  have hle := psk_correct_le M hM k hk φ s
+  have hle := psk_correct_le M hM k hk φ s c hmem l hl
   have hge : 1 - 2 * Qg (pskArg M s) ≤ (noise2 (sigma s)).real
-      (correctNoise (pskNatural (α := ℝ) M φ) (pskNaturalPoint M k φ) k) := by
+      (correctNoise c (pskNaturalPoint M k φ) l) := by
     rcases Nat.lt_or_ge M 3 with h | h
     · have : M = 2 := by omega
       subst this
-      exact psk_correct_ge_two k hk φ s
-    · exact psk_correct_ge M h k hk φ s
+      exact psk_correct_ge_two k hk φ s c hmem hnd l hl
+    · exact psk_correct_ge M h k hk φ s c hmem hnd l hl
   have h2 : ((2:Nat):ℝ) = 2 := by norm_num
   simp only [pskSER, h2, Pe]
   constructor <;> linarith
+
+/-- non-vacuity / the natural table is such a labelling -/
+theorem psk_natural_is_a_labelling (M k : Nat) (hk : k < M) (φ : ℝ) :
+    (∀ q, q ∈ pskNatural (α := ℝ) M φ ↔ q ∈ pskNatural (α := ℝ) M φ) ∧ (pskNatural (α := ℝ) M φ).Nodup ∧
+    (pskNatural (α := ℝ) M φ)[k]? = some (pskNaturalPoint M k φ) :=
+  ⟨fun _ => Iff.rfl, psk_natural_nodup M φ, pskNatural_getElem? M k hk φ⟩
+
+/-- QAM, any labelling: a table with the grid's points in any order (e.g. the Gray relabelling) detects the
+    point of column `j`, row `i`, carried at label `l`, correctly with probability `(1 − c_j Q)(1 − c_i Q)`;
+    hence the average over all labels — the SER — is the same for every labelling. -/
+theorem qam_point_correct_prob_any_labelling (L : Nat) (hL : 2 ≤ L) (s : ℝ) {j i : Nat} (hj : j < L) (hi : i < L)
+    (c : List (ℝ × ℝ)) (hmem : ∀ q, q ∈ c ↔ q ∈ qamNatural (α := ℝ) L) (hnd : c.Nodup) (l : Nat)
+    (hl : c[l]? = some (gpt (1 / qamE L) L j i)) :
+    (noise2 (sigma s)).real (correctNoise c (gpt (1 / qamE L) L j i) l) =
+      (1 - (cnt L j : ℝ) * Qg (1 / qamE L / sigma s)) * (1 - (cnt L i : ℝ) * Qg (1 / qamE L / sigma s)) := by
+  have he : 0 < qamE L := qam_scale_pos L hL
+  rw [qamNatural_eq_grid] at hmem
+  exact prob_correct_any_labelling (sigma_pos s) (by positivity) hj hi c hmem hnd l hl
 
 /-- pairwise error probability behind all three: under isotropic Gaussian noise the sample is (strictly
     or weakly) closer to another point `q` than to the transmitted `p` with probability `Q(|q − p|/2σ)` -/
